@@ -17,7 +17,7 @@ inductive GRE where
   | star (a : GRE)         -- greedy
   | grp (id : Nat) (a : GRE)
   | eol (nlMask : Nat)     -- `$`: at the end, or just before a final newline
-  deriving Repr, Inhabited
+  deriving Repr, Inhabited, DecidableEq
 
 namespace GRE
 
